@@ -121,8 +121,8 @@ PARAM_NAME_LINT_PROGRAMS = [
 ]
 
 
-# KNOWN FINDING (known_findings.json): `Self` inside a field type of a struct that derives an operator - the field type is pasted
-# into the impls for `&X`, where `Self` means the reference
+# `Self` inside a field type of a struct that derives an operator: the impls for `&X` have to spell it out (there `Self` is the
+# reference)
 SELF_FIELD_OPERATOR_PROGRAMS = [
     ('#[derive_ex(Add)] struct X(u8, W<Self>);   [W<A>: Add in all four forms]',
      'pub struct W<A>(pub u8, pub PhantomData<fn() -> A>);\n'
